@@ -36,6 +36,19 @@ WORKSPACES = {
         "u_ptr.f90": "module u_ptr\n use p_parent, only: twice\n implicit none\n abstract interface\n  integer function fn(k)\n   integer, intent(in) :: k\n  end function fn\n end interface\n procedure(fn), pointer :: fp => null()\n"
                      "contains\n subroutine setp()\n  fp => twice\n  print *, fp(2)\n end subroutine setp\nend module u_ptr\n",
     },
+    "module_procedure_form": {
+        "g_geom.f90": "module g_geom\n implicit none\n type :: vec\n  real :: x, y\n end type vec\n interface\n  module function scale(v, factor) result(w)\n   type(vec), intent(in) :: v\n   real, intent(in) :: factor\n"
+                      "   type(vec) :: w\n  end function scale\n  module subroutine reset(v)\n   type(vec), intent(inout) :: v\n  end subroutine reset\n end interface\nend module g_geom\n",
+        "a_geom_impl.f90": "submodule (g_geom) a_geom_impl\ncontains\n module procedure scale\n  w%x = v%x * factor\n  w%y = v%y * factor\n  w%\n end procedure scale\n module procedure reset\n  v%x = 0.0\n  v%\n end procedure reset\n"
+                           "end submodule a_geom_impl\n",
+        "m_main.f90": "program m_main\n use g_geom\n implicit none\n type(vec) :: p, q\n q = scale(p, 2.0)\n call reset(q)\n q%\nend program m_main\n",
+    },
+    "preprocessed_dirs": {
+        "liba/config.h": "#define FAST_PATH 1\n",
+        "liba/a_mod.F90": "#include \"config.h\"\nmodule a_mod\n implicit none\n#ifdef FAST_PATH\n integer :: a_fast\n#else\n integer :: a_slow\n#endif\nend module a_mod\n",
+        "libb/b_mod.F90": "#include \"config.h\"\nmodule b_mod\n implicit none\n#ifdef FAST_PATH\n integer :: b_fast\n#else\n integer :: b_slow\n#endif\nend module b_mod\n",
+        "libc/c_mod.F90": "module c_mod\n use a_mod\n use b_mod\n implicit none\ncontains\n subroutine touch()\n  print *, 1\n end subroutine touch\nend module c_mod\n",
+    },
 }
 
 
@@ -76,6 +89,7 @@ def sweep(ctx, quick):
             # file names are given a random prefix so that the alphabetical order differs between runs
             names = sorted(files)
             for n in names:
+                os.makedirs(os.path.dirname(os.path.join(root, n)), exist_ok=True)
                 with open(os.path.join(root, n), "w") as f:
                     f.write(files[n])
             perms = list(itertools.permutations(names))
